@@ -38,6 +38,7 @@ theorem decodeTokens_valid (ll : List Nat) (dt : List (Bits × Nat)) {fuel : Nat
   | zero => simp [decodeTokens] at h
   | succ fuel ih =>
     rw [decodeTokens] at h
+    rw [if_neg (fun hc => by rw [if_pos hc] at h; cases h)] at h
     simp only [bind_eq_ok] at h
     obtain ⟨⟨sym, bs1⟩, h1, h⟩ := h
     simp only at h
@@ -148,7 +149,9 @@ theorem readBlock_valid {plain : Array Nat} {bs : Bits} {last : Bool} {b : Block
     simp only at h4 h5 h
     split at h
     · simp only [throw_bind_eq_ok] at h
-    · simp only [bind_eq_ok] at h
+    · split at h
+      · simp only [throw_bind_eq_ok] at h
+      simp only [bind_eq_ok] at h
       obtain ⟨⟨data, bs6⟩, h6, h⟩ := h
       simp only [Except.ok.injEq, Prod.mk.injEq] at h
       obtain ⟨_, rfl, rfl, rfl⟩ := h
